@@ -1,1 +1,34 @@
-(* C06: under construction *)
+(* C06, decode side: totality corollaries of the C05 / C17 / C11 theorems. *)
+From Coq Require Import Lia.
+From Verif Require Import Base.GoInt Json.Ext Generated.JsonParseGen Json.Grammar Json.Spec Json.StreamModel Json.StateSpec
+  Json.ValidProofs Json.TokenProofs Json.StreamProofs Json.TotalSpec.
+Open Scope Z_scope.
+
+Lemma valid_total : valid_total_statement.
+Proof.
+  unfold valid_total_statement. intros b W L. eexists. apply valid_agrees; auto.
+Qed.
+
+Lemma parse_value_total : parse_value_total_statement.
+Proof.
+  unfold parse_value_total_statement. intros b d W L F.
+  destruct (parse_value_grammar b d (2 * length b + 4)%nat W L F (le_n _)) as [v [r [k [e [H _]]]]].
+  eauto.
+Qed.
+
+Lemma tokenizer_total : tokenizer_total_statement.
+Proof.
+  unfold tokenizer_total_statement. intros b W L.
+  destruct (tok_total b W L) as [ks [st [H _]]]. eauto.
+Qed.
+
+Lemma decoder_total : decoder_total_statement.
+Proof.
+  unfold decoder_total_statement. intros s W L C.
+  pose proof (stream_independent s W L C) as H.
+  destruct (all_values s REOF) as [[vals fin] offs].
+  destruct (frame (S (length (script_data s))) (script_data s)) as [spec clean].
+  destruct H as [_ [H1 H2]]. simpl. destruct clean.
+  - rewrite H1 by reflexivity. discriminate.
+  - apply H2. reflexivity.
+Qed.
